@@ -247,7 +247,13 @@ pub struct Case {
     /// end of the body is reported without asking the connection for more
     #[serde(default)]
     pub keep_open: bool,
+    /// the path of the request URL (index into PATHS): whether a declared coding is decoded does not
+    /// depend on what the resource is called
+    #[serde(default)]
+    pub path: u8,
 }
+
+const PATHS: [&str; 5] = ["/z", "/logs/access.log.gz", "/export/dump.tgz?x=1", "/archive.zip", "/data.Z"];
 
 const OTHER_FIELDS: [&str; 7] = [
     "",
@@ -433,16 +439,18 @@ fn run(c: &Case, s: &Stream) -> (Obs, Vec<u8>, bool) {
     let read = c.read;
     let head_request = c.head_request;
     let no_announce = c.no_announce;
+    let path = c.path;
     let no_follow = matches!(c.status, 301 | 302 | 303 | 307 | 308);
     let r = guarded(move || {
+        let url = format!("http://h.test{}", PATHS[path as usize]);
         let rb = if no_announce == 2 {
             let mut s = attohttpc::Session::new();
             s.allow_compression(false);
-            s.get("http://h.test/z")
+            s.get(&url)
         } else if head_request {
-            attohttpc::head("http://h.test/z")
+            attohttpc::head(&url)
         } else {
-            attohttpc::get("http://h.test/z")
+            attohttpc::get(&url)
         };
         let rb = if no_announce == 1 { rb.allow_compression(false) } else { rb };
         let rb = if no_follow { rb.follow_redirects(false) } else { rb };
@@ -579,6 +587,7 @@ fn cases_for(s: &Stream, tier: Tier) -> Vec<Case> {
         status: 0,
         other: 0,
         keep_open: false,
+        path: 0,
     };
     let nsp = spellings(s.coding).len();
     let head_len = 60; // heads are 40..80 bytes; cuts are placed relative to the end of the wire
@@ -715,6 +724,21 @@ fn cases_for(s: &Stream, tier: Tier) -> Vec<Case> {
                 c.keep_open = true;
                 c.passthrough = Some("identity".into());
                 v.push(c);
+            }
+        }
+    }
+    // what the resource is called plays no part either
+    if s.name.contains(".l6.") || s.name.contains(".fixed.") {
+        for path in 1..PATHS.len() as u8 {
+            for framing in [Framing::Length, Framing::Chunked, Framing::Close] {
+                let mut c = mk(framing, 0, Policy::default(), ReadMode::Bytes, Damage::None);
+                c.path = path;
+                v.push(c);
+                if s.coding == Coding::Gzip && n > 12 {
+                    let mut c = mk(framing, 0, Policy::default(), ReadMode::Const(7), Damage::TrailerFlip(5));
+                    c.path = path;
+                    v.push(c);
+                }
             }
         }
     }
